@@ -378,12 +378,17 @@ def check_cli(case):
         elapsed = sim[-1] - sim[0]
         dense = np.linspace(z_lo, z_hi, 257)
         sy_positive = bool((np.asarray(sy(dense), dtype=float) > 0).all())
+        if not sy_positive:
+            labels.add('sy-dips-negative')
+        if abs(storage) < 1e-6:
+            # (e.g. PEATCLSM with a few millimetres of microtopography, far
+            # below the surface: specific yield 1e-40, the whole curve lies
+            # below the resolution of the printed times)
+            raise Reject('no net storage change over the curve')
         if sy_positive and not elapsed > 0:
             raise Violation('recession-time-not-increasing-as-level-falls',
                             repr(elapsed))
-        if not sy_positive:
-            labels.add('sy-dips-negative')
-        if abs(storage) < 1e-6 or elapsed == 0:
+        if elapsed == 0:
             raise Reject('no net storage change over the curve')
         et_used = storage / elapsed
         if abs(et_used - et_mm_d) > 1e-4 * et_mm_d + 1e-4 * abs(
